@@ -48,7 +48,18 @@ theorem F1_pinned_condition_breaks_cache_invariant :
     CleanPg lenCfg f1Page ∧
     (∃ a b, splitPgPinned 20 f1Page = .ok (a, b) ∧ ¬ CacheOKPg lenCfg a) ∧
     (∃ a b, splitPg 20 f1Page = .ok (a, b) ∧ CacheOKPg lenCfg a ∧ CacheOKPg lenCfg b) := by
-  sorry
+  refine ⟨?_, ?_, ?_⟩
+  · simp [f1Page, lenCfg, CleanPg, CleanNd, Pg.hashBytes, Nd.hashBytes]
+  · refine ⟨.some 1 (some 3) (.cons .none 10 1 .nil) .none,
+      .some 0 (some 2) (.cons .none 30 1 .nil) .none, ?_, ?_⟩
+    · simp [f1Page, splitPgPinned, splitPg, splitNd, assertKeyGt, Nd.firstKey?, Pg.isSome]
+    · simp [lenCfg, CleanPg, CleanNd, CacheOKPg, CacheOKNd, Pg.hashBytes, Nd.hashBytes]
+  · refine ⟨.some 1 none (.cons .none 10 1 .nil) .none,
+      .some 0 (some 2) (.cons .none 30 1 .nil) .none, ?_, ?_, ?_⟩
+    · simp [f1Page, splitPg, splitNd, assertKeyLt, assertKeyGt, Nd.lastKey?,
+        Nd.firstKey?, Pg.isSome]
+    · simp [lenCfg, CleanPg, CleanNd, CacheOKPg, CacheOKNd, Pg.hashBytes, Nd.hashBytes]
+    · simp [lenCfg, CleanPg, CleanNd, CacheOKPg, CacheOKNd, Pg.hashBytes, Nd.hashBytes]
 
 /-! ### `NoCollisions` is satisfiable -/
 
@@ -60,8 +71,105 @@ def perfectCfg : HashCfg Nat Nat (List UInt8) :=
     db := fun d => 3 :: (d.flatMap (fun b => [2, b]) ++ [1])
     h := id }
 
+private theorem repl_inj : ∀ (k k' : Nat) (r r' : List UInt8),
+    List.replicate k 0 ++ 1 :: r = List.replicate k' 0 ++ 1 :: r' → k = k' ∧ r = r'
+  | 0, 0, r, r', h => by simpa using h
+  | 0, k'+1, r, r', h => by simp [List.replicate_succ] at h
+  | k+1, 0, r, r', h => by simp [List.replicate_succ] at h
+  | k+1, k'+1, r, r', h => by
+    simp only [List.replicate_succ, List.cons_append, List.cons.injEq, true_and] at h
+    obtain ⟨e1, e2⟩ := repl_inj k k' r r' h
+    exact ⟨by rw [e1], e2⟩
+
+private theorem dig_inj : ∀ (d d' : List UInt8) (r r' : List UInt8),
+    d.flatMap (fun b => [2, b]) ++ 1 :: r = d'.flatMap (fun b => [2, b]) ++ 1 :: r' → d = d' ∧ r = r'
+  | [], [], r, r', h => by simpa using h
+  | [], b :: d', r, r', h => by simp [List.flatMap_cons] at h
+  | b :: d, [], r, r', h => by simp [List.flatMap_cons] at h
+  | b :: d, b' :: d', r, r', h => by
+    simp only [List.flatMap_cons, List.cons_append, List.nil_append, List.cons.injEq, true_and] at h
+    obtain ⟨e1, e2⟩ := dig_inj d d' r r' h.2
+    exact ⟨by rw [h.1, e1], e2⟩
+
+private theorem node_inj (k k' v v' : Nat) (r r' : List UInt8)
+    (h : perfectCfg.kb k ++ (perfectCfg.vb v ++ r) = perfectCfg.kb k' ++ (perfectCfg.vb v' ++ r')) :
+    k = k' ∧ v = v' ∧ r = r' := by
+  simp only [perfectCfg, List.cons_append, List.append_assoc, List.nil_append, List.cons.injEq,
+    true_and] at h
+  obtain ⟨e1, h⟩ := repl_inj _ _ _ _ h
+  obtain ⟨e2, h⟩ := repl_inj _ _ _ _ h
+  exact ⟨e1, e2, h⟩
+
+private theorem opt_inj : ∀ (c c' : Option (List UInt8)) (k k' : Nat) (r r' : List UInt8),
+    optBytes perfectCfg c ++ (perfectCfg.kb k ++ r) = optBytes perfectCfg c' ++ (perfectCfg.kb k' ++ r') →
+    c = c' ∧ perfectCfg.kb k ++ r = perfectCfg.kb k' ++ r'
+  | none, none, _, _, _, _, h => ⟨rfl, by simpa [optBytes] using h⟩
+  | none, some d, _, _, _, _, h => by simp [optBytes, perfectCfg] at h
+  | some d, none, _, _, _, _, h => by simp [optBytes, perfectCfg] at h
+  | some d, some d', k, k', r, r', h => by
+    simp only [optBytes, perfectCfg, List.cons_append, List.append_assoc, List.nil_append,
+      List.cons.injEq, true_and] at h
+    obtain ⟨e1, e2⟩ := dig_inj _ _ _ _ h
+    refine ⟨by rw [e1], ?_⟩
+    simpa [perfectCfg] using e2
+
+private theorem encodeTok_inj : ∀ (l l' : List (Option (List UInt8) × Nat × Nat)) (o o' : Option (List UInt8)),
+    encodeToks perfectCfg l ++ optBytes perfectCfg o = encodeToks perfectCfg l' ++ optBytes perfectCfg o' →
+    l = l' ∧ o = o'
+  | [], [], o, o', h => by
+    simp only [encodeToks, List.nil_append] at h
+    refine ⟨rfl, ?_⟩
+    cases o with
+    | none => cases o' with
+      | none => rfl
+      | some d' => simp [optBytes, perfectCfg] at h
+    | some d => cases o' with
+      | none => simp [optBytes, perfectCfg] at h
+      | some d' =>
+        simp only [optBytes, perfectCfg, List.cons.injEq, true_and] at h
+        rw [(dig_inj _ _ _ _ h).1]
+  | [], (c, k, v) :: l', o, o', h => by
+    exfalso
+    simp only [encodeToks, List.nil_append, List.append_assoc] at h
+    cases o with
+    | none => cases c <;> simp [optBytes, perfectCfg] at h
+    | some d => cases c with
+      | none => simp [optBytes, perfectCfg] at h
+      | some d' =>
+        simp only [optBytes, perfectCfg, List.cons_append, List.append_assoc, List.nil_append,
+          List.cons.injEq, true_and] at h
+        have := (dig_inj _ _ _ _ h).2
+        simp at this
+  | (c, k, v) :: l, [], o, o', h => by
+    exfalso
+    simp only [encodeToks, List.nil_append, List.append_assoc] at h
+    cases o' with
+    | none => cases c <;> simp [optBytes, perfectCfg] at h
+    | some d => cases c with
+      | none => simp [optBytes, perfectCfg] at h
+      | some d' =>
+        simp only [optBytes, perfectCfg, List.cons_append, List.append_assoc, List.nil_append,
+          List.cons.injEq, true_and] at h
+        have := (dig_inj _ _ _ _ h).2
+        simp at this
+  | (c, k, v) :: l, (c', k', v') :: l', o, o', h => by
+    simp only [encodeToks, List.append_assoc] at h
+    obtain ⟨e1, h⟩ := opt_inj _ _ _ _ _ _ h
+    obtain ⟨e2, e3, h⟩ := node_inj _ _ _ _ _ _ h
+    obtain ⟨e4, e5⟩ := encodeTok_inj l l' o o' h
+    subst e1 e2 e3 e4 e5
+    exact ⟨rfl, rfl⟩
+
 /-- Non-vacuity of the collision-freeness hypotheses of C03–C07 and of `NoCollisions` (C05, C06). -/
 theorem perfectCfg_noCollisions : NoCollisions perfectCfg := by
-  sorry
+  intro p q a _ b _ h
+  obtain ⟨l, o⟩ := a
+  obtain ⟨l', o'⟩ := b
+  have h' : encodeTok perfectCfg (l, o) = encodeTok perfectCfg (l', o') := h
+  obtain ⟨e1, e2⟩ := encodeTok_inj l l' o o' h'
+  rw [e1, e2]
 
 end Mst
+
+#print axioms Mst.F1_pinned_condition_breaks_cache_invariant
+#print axioms Mst.perfectCfg_noCollisions
